@@ -210,6 +210,30 @@ def run(ctx):
                       'forced': forced, 'seed': rng.randrange(1, 2 ** 32), 'maxrep': 3,
                       'features': {'nested-204-then-outer': 1}, 'shared': False})
         cases[-1]['shared'] = cases[-1]['compressed']
+    # the same flat descriptor list in every subset, but a DIFFERENT bitmap per subset (uncompressed): which element owns a
+    # value is decided by the subset's own bitmap (links, marker widths, attributes)
+    for k in range(ctx.n(20, 300)):
+        n = rng.choice([2, 3, 4])
+        els = rng.sample([1001, 1002, 12001, 10004, 11001, 2001, 4004, 5002, 7001, 13003], n)
+        zeros = rng.randint(1, n - 1)
+        op = rng.choice([222, 223, 224, 225, 232])
+        sig = [8023] if op == 224 else [8024] if op == 225 else []
+        tail = [33007] * zeros if op == 222 else sig + [op * 1000 + 255] * zeros
+        ids = els + [op * 1000, 236000, 101000 + n, 31031] + tail
+        nsub = rng.choice([2, 3])
+        bits = [0] * zeros + [1] * (n - zeros)
+        variants, seen = [], set()
+        for j in range(nsub):
+            b = bits[:]
+            for _ in range(8):
+                rng.shuffle(b)
+                if tuple(b) not in seen:
+                    break
+            seen.add(tuple(b))
+            variants.append('31031=' + '.'.join(map(str, b)))
+        cases.append({'ids': ids, 'version': 33, 'edition': 4, 'nsub': nsub, 'compressed': False, 'forced': '||'.join(variants),
+                      'seed': rng.randrange(1, 2 ** 32), 'maxrep': 3, 'features': {'same-labels-different-bitmaps': 1},
+                      'shared': False})
     # uncompressed subsets whose layout BEFORE a marker operator differs (different delayed-replication counts) while the
     # bitmap designates the same positions: what a marker takes from its element is decided per subset
     for k in range(ctx.n(16, 200)):
